@@ -64,7 +64,8 @@ _URL_RE = re.compile(r'^((?P<scheme>[^:/?#]+):)?'
                      r'((?P<_netloc_sep>//)(?P<authority>[^/?#]*))?'
                      r'(?P<path>[^?#]*)'
                      r'(\?(?P<query>[^#]*))?'
-                     r'(#(?P<fragment>.*))?')
+                     r'(#(?P<fragment>.*))?',
+                     re.DOTALL)  # a fragment may hold a line break, like every other component
 
 
 _HEX_CHAR_MAP = {(a + b).encode('ascii'):
